@@ -87,6 +87,7 @@ impl Case {
             "comp-stream" => "comp-stream",
             "badclass" => "badclass",
             "classfuzz" => "classfuzz",
+            "tablespec" => "tablespec",
             _ => "random",
         };
         Case {
@@ -498,11 +499,16 @@ impl Oracle<'_> {
             FrameSrc::Nest { depth, .. } => depth * 2,
         };
         let stage = decode::stage_name(o.stage);
-        let shape = if c.class == "field" || c.class == "field2" || c.class == "nest" || c.class == "badclass" || c.class == "classfuzz" { c.site.clone() } else if c.class == "wellformed" { format!("wellformed:{}", c.site) } else { c.class.to_string() };
+        let shape = if c.class == "field" || c.class == "field2" || c.class == "nest" || c.class == "badclass" || c.class == "classfuzz" || c.class == "tablespec" { c.site.clone() } else if c.class == "wellformed" { format!("wellformed:{}", c.site) } else { c.class.to_string() };
         let mismatch = c.expect.is_some() && (o.status != 0 || Some(o.hash) != c.expect.as_ref().map(|e| vcore::fnv64(e.as_bytes())));
         // violation key: failure class + decode site (+ deviated field for failures that have no allocation site)
-        let key: Option<String> = if let Some((_, _, _, site)) = &o.oversize {
-            Some(format!("alloc:{site}"))
+        let key: Option<String> = if let Some((_, what, _, site)) = &o.oversize {
+            if c.class == "tablespec" && c.site == "prepared+global-table-spec" && what == "total" {
+                // owned metadata of a Prepared result: the global keyspace / table names are copied into every column spec
+                Some("alloc:prepared-metadata:global-table-spec-cloned-per-column".to_string())
+            } else {
+                Some(format!("alloc:{site}"))
+            }
         } else {
             match o.status {
                 2 => Some(format!("panic:{stage}:{}", panic_site(&o.detail))),
@@ -899,6 +905,50 @@ fn classfuzz_cases(template: usize, maxlen: usize, out: &mut Vec<Case>) {
     }
 }
 
+/// nested fixed-size vectors: the element size is a product of the dimensions (depth 1..8 x boundary dimensions),
+/// metadata parsing and decoding null / empty / short / plausible cells against the type, typed targets on
+fn vector_nest_cases(out: &mut Vec<Case>) {
+    for leaf in ["Int32Type", "FloatType", "UUIDType", "BooleanType", "UTF8Type", "ListType(Int32Type)"] {
+        for depth in 1..=8usize {
+            for dim in ["0", "1", "2", "255", "65535", "65536", "2147483647"] {
+                let cls = frames::nested_vector_class(leaf, depth, dim);
+                let cells: Vec<Option<Vec<u8>>> = vec![None, Some(vec![]), Some(vec![0, 0, 0, 1]), Some(vec![0x7f; 64]), Some((0..=255).collect())];
+                for (which, body) in [("Rows", frames::custom_type_rows_body(cls.as_bytes(), &cells)), ("Rows/no rows", frames::custom_type_body(cls.as_bytes(), false)), ("Prepared", frames::custom_type_body(cls.as_bytes(), true))] {
+                    out.push(Case { frame: FrameSrc::Bytes(Arc::new(frames::plain_frame(p::opcode::RESULT, 0, 1, &body))), comp: 0, feat: 0, opts: decode::OPT_TYPED, cached: None, expect: None, class: "nest", site: "nest/class:vector-dimensions".into(), origin: format!("{leaf} in {depth} nested vectors of dimension {dim}, {which}") });
+                }
+            }
+        }
+    }
+}
+
+/// long keyspace / table names x many columns, global or per-column table spec, Rows and Prepared
+fn table_spec_cases(thorough: bool, out: &mut Vec<Case>) {
+    for prepared in [false, true] {
+        for global in [true, false] {
+            for name_len in [1usize, 255, 4096, 65535] {
+                for ncols in [1usize, 100, 10_000, 30_000] {
+                    // per-column specs repeat the names on the wire: keep the frame under 8 MiB (quick: 2 MiB)
+                    let limit = if thorough { 8 << 20 } else { 2 << 20 };
+                    let n = if global { ncols } else { ncols.min(limit / (2 * name_len + 8)).max(1) };
+                    let r = frames::table_spec_item(n, name_len, global, prepared);
+                    let w = resp::encode_ext_body(&Ext::default(), &r, false);
+                    out.push(Case {
+                        frame: FrameSrc::Bytes(Arc::new(frames::plain_frame(p::opcode::RESULT, 0, 1, &w.buf))),
+                        comp: 0,
+                        feat: 0,
+                        opts: 0,
+                        cached: None,
+                        expect: None,
+                        class: "tablespec",
+                        site: format!("{}+{}", if prepared { "prepared" } else { "rows" }, if global { "global-table-spec" } else { "per-column-table-spec" }),
+                        origin: format!("{n} columns, keyspace and table names of {name_len} bytes, {} table spec, {}", if global { "global" } else { "per-column" }, if prepared { "Prepared" } else { "Rows" }),
+                    });
+                }
+            }
+        }
+    }
+}
+
 fn random_cases(seed: u64, n: usize, out: &mut Vec<Case>) {
     let mut rng = vcore::Rng::new(seed ^ 0xC08);
     let ops = [0x00u8, 0x02, 0x03, 0x06, 0x08, 0x0C, 0x0E, 0x10];
@@ -1160,6 +1210,8 @@ fn main() {
         Random(u64),
         Stream,
         ClassFuzz(usize),
+        VectorNest,
+        TableSpec,
     }
     let mut units: Vec<Unit> = Vec::new();
     for i in 0..corpus.len() {
@@ -1182,6 +1234,8 @@ fn main() {
             }
         }
     }
+    units.insert(0, Unit::TableSpec); // sequential, one child per case: started first so that it overlaps with everything else
+    units.push(Unit::VectorNest);
     units.push(Unit::Stream);
     for t in 0..frames::class_templates().len() {
         units.push(Unit::ClassFuzz(t));
@@ -1205,6 +1259,8 @@ fn main() {
             Unit::Random(_) => only == "random",
             Unit::Stream => only == "stream",
             Unit::ClassFuzz(_) => only == "classfuzz",
+            Unit::VectorNest => only == "vectornest",
+            Unit::TableSpec => only == "tablespec",
         });
     }
     let oref = &oracle;
@@ -1225,6 +1281,8 @@ fn main() {
             Unit::Random(_) => "random",
             Unit::Stream => "stream",
             Unit::ClassFuzz(_) => "classfuzz",
+            Unit::VectorNest => "vectornest",
+            Unit::TableSpec => "tablespec",
         };
         match u {
             Unit::Well(i) => {
@@ -1291,9 +1349,11 @@ fn main() {
             Unit::Random(k) => random_cases(seed.wrapping_mul(1000).wrapping_add(k), 10_000, &mut cases),
             Unit::Stream => run_stream_cases(oref.r, &stream_cases(thorough)),
             Unit::ClassFuzz(t) => classfuzz_cases(t, if thorough { 5 } else { 4 }, &mut cases),
+            Unit::VectorNest => vector_nest_cases(&mut cases),
+            Unit::TableSpec => table_spec_cases(thorough, &mut cases),
         }
         // nests are megabytes each: small batches
-        let b = if matches!(u, Unit::Nest) { 8 } else { batch };
+        let b = if matches!(u, Unit::Nest) { 8 } else if matches!(u, Unit::TableSpec) { 1 } else { batch };
         let t_gen = t_unit.elapsed().as_millis() as u64;
         oref.run_and_judge(cases, b);
         oref.r.counters.add(&format!("cpu_ms_generate_{uname}"), t_gen);
@@ -1319,7 +1379,7 @@ fn main() {
     if unrep > 0 && r.args.extra_value("--only").is_none() {
         vcore::machinery_error(&format!("{unrep} fatal outcomes did not reproduce when the case was re-run alone"));
     }
-    r.set_rule("E-ENUM with deviation bounding. 0 deviations: corpus of well-formed frames of every response kind (ERROR all 19 codes with extras, READY, AUTHENTICATE, SUPPORTED, RESULT void/rows/set_keyspace/prepared/schema_change, EVENT all kinds, AUTH_CHALLENGE/SUCCESS; rows over a depth-2 type alphabet incl. class-string forms and vectors, every metadata flag combination, 0..2 rows, cached-metadata twin for no_metadata) x extension subsets x {none, LZ4, Snappy} x {matches, literal-only} x feature combinations (quick: 4; thorough: all 16), decoded through read_response_frame -> parse_response_body_extensions -> ResponseV2::deserialize (+ legacy Response for events) -> deserialize_metadata -> rows as raw cells, as Row/CqlValue and as every typed tuple of the target alphabet that passes type_check; decoded text must equal the text derived from the cqlref model. 1 deviation: every stream truncation, every body truncation with consistent header, every length/count/flag/id field x {0,1,-1,-2,+1,-1,0x7fff,0xffff,i32::MAX,i32::MIN, bit flips, all type ids / result kinds / opcodes / error codes}, header fields, every offset of the rows content x boundary 4-byte / 8-byte / 1-byte values (counts and lengths inside cell values, extreme scalars; typed targets on), damaged compressed streams (every cut, every byte x 4 values, announced length), bad class strings, class-string grammar holes (UDT keyspace / hex type name / hex field names / nested parameters / hex prefix / identifiers / vector dimension: 15 templates x every string of length 0..4 (thorough 0..5) over {hex digits, non-hex ASCII, '_', '.', 2-/3-/4-byte UTF-8 alphanumerics} + invalid UTF-8), type nesting 1e2..1e6 (binary) and 4..7000 (class strings). 2 deviations: field pairs (quick: same region or adjacent, reduced value alphabet; thorough: same region at any distance or any two fields <= 12 apart, full alphabet) and field mutation + body truncation right after the field / right before the end; thorough also repeats the single deviations under 6 feature sets with typed targets. Two-column rows over ordered pairs of the type alphabet (quick: a third; thorough: all). Stream level: sequences of 1-3 well-formed frames back to back in one reader, first-frame body sizes {0,1,9,8191,8192,32767,32768,32769,40000,49152,65535,65536,65537,100000,131073,300001}, reader handing out {everything, 1, 7, 4096, 65537} bytes per poll with Pending in between, decoded by repeated read_response_frame: every (params, opcode, body) equals what was encoded, in order, the reader is exhausted exactly at the end and one more read is an error. Sampled (labelled): random bodies behind valid headers. Oracle per case in a child process: no panic/abort/signal/stack overflow (2 MiB thread)/more than 4 s of CPU time for one decode; largest single request and peak live bytes above the pre-decode level <= 64 KiB + 256 x frame length (x decompressed body length once a compressed body has been inflated) by a counting allocator that reports before the request is served and refuses > 64 MiB. distinct_nontrivial = round trips that matched + deviations rejected with a clean error.");
+    r.set_rule("E-ENUM with deviation bounding. 0 deviations: corpus of well-formed frames of every response kind (ERROR all 19 codes with extras, READY, AUTHENTICATE, SUPPORTED, RESULT void/rows/set_keyspace/prepared/schema_change, EVENT all kinds, AUTH_CHALLENGE/SUCCESS; rows over a depth-2 type alphabet incl. class-string forms and vectors, every metadata flag combination, 0..2 rows, cached-metadata twin for no_metadata) x extension subsets x {none, LZ4, Snappy} x {matches, literal-only} x feature combinations (quick: 4; thorough: all 16), decoded through read_response_frame -> parse_response_body_extensions -> ResponseV2::deserialize (+ legacy Response for events) -> deserialize_metadata -> rows as raw cells, as Row/CqlValue and as every typed tuple of the target alphabet that passes type_check; decoded text must equal the text derived from the cqlref model. 1 deviation: every stream truncation, every body truncation with consistent header, every length/count/flag/id field x {0,1,-1,-2,+1,-1,0x7fff,0xffff,i32::MAX,i32::MIN, bit flips, all type ids / result kinds / opcodes / error codes}, header fields, every offset of the rows content x boundary 4-byte / 8-byte / 1-byte values (counts and lengths inside cell values, extreme scalars; typed targets on), damaged compressed streams (every cut, every byte x 4 values, announced length), bad class strings, class-string grammar holes (UDT keyspace / hex type name / hex field names / nested parameters / hex prefix / identifiers / vector dimension: 15 templates x every string of length 0..4 (thorough 0..5) over {hex digits, non-hex ASCII, '_', '.', 2-/3-/4-byte UTF-8 alphanumerics} + invalid UTF-8), nested fixed-size vectors (6 leaf types x depth 1..8 x dimension {0,1,2,255,65535,65536,2^31-1}, cells null/empty/short/long, typed targets), metadata of {1,100,10000,30000} columns x keyspace/table names of {1,255,4096,65535} bytes x global / per-column table spec in Rows and Prepared, type nesting 1e2..1e6 (binary) and 4..7000 (class strings). 2 deviations: field pairs (quick: same region or adjacent, reduced value alphabet; thorough: same region at any distance or any two fields <= 12 apart, full alphabet) and field mutation + body truncation right after the field / right before the end; thorough also repeats the single deviations under 6 feature sets with typed targets. Two-column rows over ordered pairs of the type alphabet (quick: a third; thorough: all). Stream level: sequences of 1-3 well-formed frames back to back in one reader, first-frame body sizes {0,1,9,8191,8192,32767,32768,32769,40000,49152,65535,65536,65537,100000,131073,300001}, reader handing out {everything, 1, 7, 4096, 65537} bytes per poll with Pending in between, decoded by repeated read_response_frame: every (params, opcode, body) equals what was encoded, in order, the reader is exhausted exactly at the end and one more read is an error. Sampled (labelled): random bodies behind valid headers. Oracle per case in a child process: no panic/abort/signal/stack overflow (2 MiB thread)/more than 4 s of CPU time for one decode; largest single request and peak live bytes above the pre-decode level <= 64 KiB + 256 x frame length (x decompressed body length once a compressed body has been inflated) by a counting allocator that reports before the request is served and refuses > 64 MiB. distinct_nontrivial = round trips that matched + deviations rejected with a clean error.");
     r.set_exhaustive(true);
     r.assume("row iteration is consumer-driven: the harness pulls at most 4096 rows per iterator and stops at the first error; every step is checked");
     r.assume("the decode runs on a 2 MiB thread (tokio worker default), RLIMIT_AS 2 GiB protects the checker only; verdicts come from the counting allocator");
